@@ -211,6 +211,9 @@ pub struct CodingOpts {
     pub payload_seed: u64,
     /// pad every size line to exactly 20 bytes (the decoder's limit) with leading zeros
     pub exact20: bool,
+    /// bad whitespace (RFC 9112 section 7.1.1 BWS, which a recipient must accept) in front of the
+    /// ';' of a chunk extension: 0 = none, 1 = SP, 2 = HTAB
+    pub bws: u8,
 }
 
 fn push(c: &mut Coding, bytes: &[u8], class: u8) {
@@ -227,13 +230,14 @@ pub fn encode_chunked(o: &CodingOpts) -> Coding {
     let mut ppos = 0u64;
     for (k, &sz) in o.sizes.iter().enumerate() {
         let hex = if o.upper { format!("{:X}", sz) } else { format!("{:x}", sz) };
-        let ext_len = if o.ext && k % 2 == 0 { 4 } else { 0 };
-        let zeros = if o.exact20 { 20usize.saturating_sub(hex.len() + ext_len) } else { o.leading_zeros.min(20usize.saturating_sub(hex.len() + if o.ext { 4 } else { 0 })) };
+        let ext_s: &str = match o.bws { 1 => " ;e=1", 2 => "\t;e=1", _ => ";e=1" };
+        let ext_len = if o.ext && k % 2 == 0 { ext_s.len() } else { 0 };
+        let zeros = if o.exact20 { 20usize.saturating_sub(hex.len() + ext_len) } else { o.leading_zeros.min(20usize.saturating_sub(hex.len() + if o.ext { ext_s.len() } else { 0 })) };
         let mut line = "0".repeat(zeros);
         line.push_str(&hex);
         push(&mut c, line.as_bytes(), gc::SIZE);
         if o.ext && k % 2 == 0 {
-            let ext = if line.len() + 4 <= 20 { ";e=1" } else { "" };
+            let ext = if line.len() + ext_s.len() <= 20 { ext_s } else { "" };
             push(&mut c, ext.as_bytes(), gc::EXT);
         }
         push(&mut c, b"\r", gc::SIZE_CR);
@@ -256,7 +260,7 @@ pub fn encode_chunked(o: &CodingOpts) -> Coding {
     };
     push(&mut c, last.as_bytes(), gc::LAST_SIZE);
     if o.ext {
-        push(&mut c, b";last", gc::EXT);
+        push(&mut c, match o.bws { 1 if !o.exact20 => &b" ;last"[..], 2 if !o.exact20 => &b"\t;last"[..], _ => &b";last"[..] }, gc::EXT);
     }
     push(&mut c, b"\r", gc::SIZE_CR);
     push(&mut c, b"\n", gc::SIZE_LF);
@@ -291,6 +295,7 @@ pub fn gen_coding(ctx: &mut Ctx) -> Coding {
         trailers: if ctx.chance(1, 3) { ctx.range(1, 2) } else { 0 },
         payload_seed: ctx.draw(1 << 32),
         exact20: ctx.chance(1, 8),
+        bws: if ctx.chance(1, 4) { ctx.range(1, 2) as u8 } else { 0 },
     };
     encode_chunked(&o)
 }
